@@ -157,6 +157,7 @@ func c20CheckCoord(s string, v float64, lat bool) string {
 
 func C20(args []string) {
 	r := core.Begin("C20", "model_checking", args)
+	r.WatchProgress(watchPeriod()) // the code under test runs in this process: a call that never returns must end the check
 	if p := replayArg(args); p != "" {
 		c20Replay(p)
 		return
